@@ -299,6 +299,20 @@ theorem dict_refcount_spec_fails :
     (init_inv _ 8) (by simp [AllOps, OpWf])
   revert this; decide
 
+/-- With the candidate repair `fixes/F50.diff` (`Dict.insertFixed`: look up, copy, then `lyht_insert_no_check`) the full
+statement holds: every hash function, every prefix length, no collision hypothesis. -/
+theorem dict_refcount_spec_fixed (H : Bytes → UInt32) (d : Dict) (hd : DInv H d) (ops : List DOp)
+    (hw : AllOps OpWf (refs d) ops) :
+    (d.runF H ops).1 = (Dict.specRun (refs d) ops).1 ∧ refs (d.runF H ops).2 = (Dict.specRun (refs d) ops).2 ∧
+    DInv H (d.runF H ops).2 := by
+  obtain ⟨h1, h2, h3⟩ := runF_spec H ops d hd hw
+  exact ⟨h2, h3, h1⟩
+
+/-- the witness of `dict_refcount_spec_fails` is handled correctly by the repaired function -/
+example : ((Dict.init 8).runF (fun _ => 0)
+    [.ins [97, 98, 88] 3 false false, .ins [99] 1 false false, .ins [100] 1 false false, .ins [101] 1 false false,
+     .ins [102] 1 false false, .ins [97, 98, 88] 2 false false]).1.getLast? = some (.ok [97, 98]) := by decide
+
 /-- **`dict_insert_remove_cancel`**: `abs (remove (insert d s) s) = abs d`, for every hash function and every state —
 also when the insert enlarges and the remove shrinks the table. -/
 theorem dict_insert_remove_cancel (H : Bytes → UInt32) (d : Dict) (hd : DInv H d) (s : Bytes) (hs : (0 : UInt8) ∉ s)
